@@ -13,6 +13,7 @@ import OFV.Proofs.C02MajEq
 import OFV.Proofs.C02Clifford
 import OFV.Proofs.C03Main
 import OFV.Proofs.C03Exact
+import OFV.Proofs.C02Real
 
 namespace OFV.C02
 open OFV OFV.Model OFV.Model.C02 OFV.Proofs.C02
@@ -300,6 +301,25 @@ theorem is_identity_iff (a : Op) : isIdentity a = true ↔ ∃ c, a = [([], c)] 
       simp at h'
       exact ⟨c, by rw [h']⟩
   · rintro ⟨c, rfl⟩; rfl
+
+/-! ## the rational Model is the real-number semantics of the coded formulas
+
+`abs` of a complex number is a square root; the Model compares squares.  Over the reals
+(`absR x = √(re² + im²)`) the three tests are literally the expressions in the source. -/
+
+/-- `_issmall(v, tol)`: `abs(v) < tol`. -/
+theorem issmall_iff_real (v : GQ) (t : ℚ) : absLt v t = true ↔ absR v < (t : ℝ) :=
+  absLt_iff_real v t
+
+/-- shared term of `isclose`: `abs(a - b) < tol * max(1, abs(a), abs(b))`. -/
+theorem isclose_term_iff_real (tol : ℚ) (a b : GQ) :
+    closeRel tol a b = true ↔ absR (a - b) < (tol : ℝ) * max 1 (max (absR a) (absR b)) :=
+  closeRel_iff_real tol a b
+
+/-- `numpy.isclose(a, b)`: `abs(a - b) <= atol + rtol * abs(b)` (`atol, rtol ≥ 0`). -/
+theorem numpy_isclose_iff_real (atol rtol : ℚ) (ha : 0 ≤ atol) (hr : 0 ≤ rtol) (a b : GQ) :
+    npIsclose atol rtol a b = true ↔ absR (a - b) ≤ (atol : ℝ) + (rtol : ℝ) * absR b :=
+  npIsclose_iff_real atol rtol ha hr a b
 
 /-! ## `is_hermitian(FermionOperator)` — relies on the canonicity of normal ordering (C03) -/
 
